@@ -51,6 +51,21 @@ SELECTED = [
     ("_is_not_suffix", "packaging.specifiers", "_is_not_suffix"),
     ("_version_join", "packaging.specifiers", "_version_join"),
     ("_pad_version", "packaging.specifiers", "_pad_version"),
+    ("_cmpkey", "packaging.version", "_cmpkey"),
+    ("Version.__str__", "packaging.version", "Version.__str__"),
+    ("Version.public", "packaging.version", "Version.public"),
+    ("Version.base_version", "packaging.version", "Version.base_version"),
+    ("Version.is_prerelease", "packaging.version", "Version.is_prerelease"),
+    ("_TrimmedRelease.release", "packaging.version", "_TrimmedRelease.release"),
+]
+
+# classes whose instances the translated code handles as records `PyVal.obj <class name> <fields>`; attribute access on
+# a value of one of these classes is resolved through the class's MRO (property -> translated getter, method ->
+# translated function, otherwise instance field), with a run-time dispatch on the class name where a tracked
+# subclass overrides the attribute
+TRACKED = [
+    ("packaging.version", "_Version"), ("packaging.version", "_BaseVersion"), ("packaging.version", "Version"),
+    ("packaging.version", "_TrimmedRelease"),
 ]
 
 LEAN_KEYWORDS = {
@@ -137,6 +152,75 @@ class Fn:
         self.globals = pyfunc.__globals__
         self.tmp = 0
         self.lines = []
+        self.owner = None                     # the class a method / property getter is defined in
+        qn = pyfunc.__qualname__.split(".")
+        if len(qn) == 2 and qn[0] in self.globals and inspect.isclass(self.globals[qn[0]]):
+            self.owner = self.globals[qn[0]]
+        self._class_guard = set()
+
+    # ------------------------------------------------------------------ static classes (for attribute resolution)
+    def ann_class(self, ann):
+        """the tracked class an annotation names (`C`, `C | None`, `Optional[C]` are read as C)"""
+        if ann is None:
+            return None
+        if isinstance(ann, ast.Constant) and isinstance(ann.value, str):
+            try:
+                ann = ast.parse(ann.value, mode="eval").body
+            except SyntaxError:
+                return None
+        if isinstance(ann, ast.BinOp) and isinstance(ann.op, ast.BitOr):
+            for side in (ann.left, ann.right):
+                if not (isinstance(side, ast.Constant) and side.value is None):
+                    return self.ann_class(side)
+            return None
+        if isinstance(ann, ast.Name):
+            v = self.globals.get(ann.id)
+            if inspect.isclass(v) and self.ctx.is_tracked(v):
+                return v
+        return None
+
+    def static_class(self, e):
+        """the tracked class the value of `e` is an instance of, as far as annotations / constructor calls say; else None.
+        Trusted: parameter annotations and `self.x = C(...)` in `__init__` (documented in the module header)."""
+        if isinstance(e, ast.Name):
+            if e.id in self.bound_stack():
+                return None
+            args = self.node.args.args
+            if self.owner is not None and args and e.id == args[0].arg and e.id not in self.param_assigned_names():
+                return self.owner
+            for a in args + self.node.args.kwonlyargs:
+                if a.arg == e.id and e.id not in self.param_assigned_names():
+                    return self.ann_class(a.annotation)
+            # a local assigned exactly once, from an expression of known class
+            key = ("local", e.id)
+            if key in self._class_guard:
+                return None
+            self._class_guard.add(key)
+            try:
+                found = [n for n in _walk_scope(self.node.body) if e.id in _targets_of(n)]
+                if len(found) == 1 and isinstance(found[0], (ast.Assign, ast.AnnAssign)):
+                    st = found[0]
+                    tgt = st.targets[0] if isinstance(st, ast.Assign) else st.target
+                    if isinstance(tgt, ast.Name) and st.value is not None:
+                        return self.static_class(st.value)
+            finally:
+                self._class_guard.discard(key)
+            return None
+        if isinstance(e, ast.Call) and isinstance(e.func, ast.Name) and e.func.id not in self.locals:
+            v = self.globals.get(e.func.id)
+            if inspect.isclass(v) and self.ctx.is_tracked(v):
+                return v
+            if e.func.id == "super" and not e.args and self.owner is not None:
+                return None
+            return None
+        if isinstance(e, ast.Attribute):
+            c = self.static_class(e.value)
+            if c is not None:
+                return self.ctx.field_class(c, e.attr)
+        return None
+
+    def param_assigned_names(self):
+        return {n for st in _walk_scope(self.node.body) for n in _targets_of(st)} & set(self.params())
 
     # ------------------------------------------------------------------ helpers
     def fresh(self, base="t"):
@@ -365,7 +449,7 @@ class Fn:
         if body and isinstance(body[0], ast.Expr) and isinstance(body[0].value, ast.Constant) and isinstance(body[0].value.value, str):
             body = body[1:]
         self.block(body, 1)
-        if not body or not isinstance(body[-1], (ast.Return, ast.Raise)):
+        if _falls_through(body):
             self.emit(1, "return " + ("PyVal.iter __yield" if self.is_gen else "PyVal.none"))
         return "\n".join(self.lines)
 
@@ -667,7 +751,11 @@ class Fn:
                     if v.format_spec is not None:
                         raise Unsupported("format specification in an f-string")
                     if v.conversion == -1:
-                        parts.append(f"(← PyRt.format {self.val(v.value)})")
+                        t = self.str_of(v.value)
+                        if t is not None:
+                            parts.append(f"(← PyRt.format (← {t}))")
+                        else:
+                            parts.append(f"(← PyRt.format {self.val(v.value)})")
                     elif v.conversion == ord("r"):
                         parts.append(f"(← PyRt.repr {self.val(v.value)})")
                     else:
@@ -879,8 +967,72 @@ class Fn:
 
     def attribute(self, e):
         base = e.value
-        # itertools.X etc. only make sense as call heads
-        return False, f'PyRt.getattr {self.val(base)} "{e.attr}"'
+        # super().attr : the next definition after the owner in the owner's MRO
+        if isinstance(base, ast.Call) and isinstance(base.func, ast.Name) and base.func.id == "super" and not base.args:
+            if self.owner is None:
+                raise Unsupported("super() outside a method")
+            selfname = self.node.args.args[0].arg
+            for k in self.owner.__mro__[1:]:
+                if e.attr in k.__dict__:
+                    obj = k.__dict__[e.attr]
+                    if isinstance(obj, property):
+                        # zero-argument super() checks isinstance(self, <owner>) and raises TypeError otherwise
+                        names = [self.owner.__name__] + [d.__name__ for d in self.ctx.subclasses(self.owner)]
+                        chk = "[" + ", ".join(f'"{n}"' for n in names) + "]"
+                        return False, (f"(if !(PyRt.isinstance {lname(selfname)} {chk}) then throw PyRt.typeError "
+                                       f"else {self.ctx.require(obj.fget)} {lname(selfname)})")
+                    raise Unsupported(f"super().{e.attr} is not a property")
+            raise Unsupported(f"super().{e.attr} not found")
+        c = self.static_class(base)
+        recv = self.val(base)
+        if c is None:
+            if self.ctx.defined_by_tracked(e.attr):
+                raise Unsupported(f"attribute .{e.attr} of a value whose class is not known statically")
+            return False, f'PyRt.getattr {recv} "{e.attr}"'
+        return False, self.dispatch(c, e.attr, recv, lambda impl: self.attr_impl(impl, e.attr))
+
+    def attr_impl(self, impl, attr):
+        """how to read attribute `attr` given what the class defines: -> function of the receiver term"""
+        if isinstance(impl, property):
+            fn = self.ctx.require(impl.fget)
+            return lambda r: f"{fn} {r}"
+        if impl is _MISSING or type(impl).__name__ in ("_tuplegetter", "member_descriptor"):
+            return lambda r: f'PyRt.getattr {r} "{attr}"'
+        if inspect.isfunction(impl):
+            raise Unsupported(f"bound method .{attr} used as a value")
+        try:
+            c = lconst(impl)
+        except Unsupported:
+            raise Unsupported(f"class attribute .{attr} of type {type(impl).__name__}")
+        return lambda r: f"pure {c}"
+
+    def dispatch(self, c, attr, recv, mk, extra_args=()):
+        """an `M PyVal` term for `recv.attr` where recv is an instance of tracked class c or of a tracked subclass.
+        Where subclasses define the attribute differently a dispatcher definition `<C>.<attr>__dyn` (a chain of tests on
+        the run-time class name) is emitted once and called here."""
+        base = self.ctx.lookup(c, attr)
+        arms = []
+        for d in self.ctx.subclasses(c):
+            impl = self.ctx.lookup(d, attr)
+            if impl is not base:
+                arms.append((d.__name__, mk(impl)))
+        dflt = mk(base)
+        if not arms:
+            return dflt(recv)
+        name = f"{c.__name__}.{attr}__dyn"
+        if name not in self.ctx.dispatchers:
+            n = len(extra_args)
+            params = " ".join(["self"] + [f"a{i}" for i in range(n)])
+            body = ""
+            for cn, f in arms:
+                body += f'if PyRt.className self == "{cn}" then {f("self")} else '
+            body += dflt("self")
+            if n:
+                raise Unsupported("dynamic dispatch of a method with arguments")
+            self.ctx.dispatchers[name] = f"def {name} ({params} : PyVal) : M PyVal :=\n  {body}"
+            self.ctx.dispatcher_deps[name] = {fn for fn in self.ctx.objs.values() if (" " + fn + " ") in (" " + body + " ")}
+        self.ctx.deps.setdefault(self.ctx.current, set()).add(name)
+        return f"{name} {recv}"
 
     def call(self, e):
         f = e.func
@@ -912,7 +1064,21 @@ class Fn:
                     if path == "chain.from_iterable" and len(e.args) == 1 and not kws:
                         return False, f"PyRt.chain_from_iterable {self.val(e.args[0])}"
                 raise Unsupported(f"call of {modname}.{path}")
+            # ---- method of a tracked class
+            c = self.static_class(f.value)
+            if c is not None and inspect.isfunction(self.ctx.lookup(c, f.attr)):
+                recv = self.val(f.value)
+                def mk(impl):
+                    if not inspect.isfunction(impl):
+                        raise Unsupported(f"method .{f.attr} is not a plain function in a subclass")
+                    fn = self.ctx.require(impl)
+                    args = self.bind_args(impl, e.args, kws, skip_self=True)
+                    return lambda r: fn + " " + r + "".join(" " + a for a in args)
+                return False, self.dispatch(c, f.attr, recv, mk)
             # ---- method call on a value
+            if f.attr == "split" and len(e.args) == 2 and not kws:
+                recv = self.val(f.value)
+                return False, f"PyRt.str_split_max {recv} {self.val(e.args[0])} {self.val(e.args[1])}"
             if f.attr in METHODS:
                 fn, ar = METHODS[f.attr]
                 if kws or len(e.args) != ar:
@@ -939,12 +1105,31 @@ class Fn:
         if name == "isinstance" and len(args) == 2 and not kws:
             classes = self.class_names(args[1])
             return True, f"(PyVal.bool (PyRt.isinstance {self.val(args[0])} [" + ", ".join(f'"{c}"' for c in classes) + "]))"
+        if name == "str" and len(args) == 1 and not kws:
+            t = self.str_of(args[0])
+            if t is not None:
+                return False, t
         if name in BUILTINS:
             fn, ar = BUILTINS[name]
             if kws or len(args) != ar:
                 raise Unsupported(f"arguments of {name}")
             return False, fn + "".join(" " + self.val(a) for a in args)
         raise Unsupported(f"builtin {name}")
+
+    def str_of(self, a):
+        """`str(a)` when `a` is an instance of a tracked class that defines `__str__`: an `M PyVal` term, else None"""
+        c = self.static_class(a)
+        if c is None:
+            return None
+        impl = self.ctx.lookup(c, "__str__")
+        if not inspect.isfunction(impl):
+            raise Unsupported(f"str() of a {c.__name__} without a Python-level __str__")
+        def mk(impl):
+            if not inspect.isfunction(impl):
+                raise Unsupported("__str__ is not a plain function in a subclass")
+            fn = self.ctx.require(impl)
+            return lambda r: f"{fn} {r}"
+        return self.dispatch(c, "__str__", self.val(a), mk)
 
     def class_names(self, e):
         if isinstance(e, ast.Tuple):
@@ -957,10 +1142,12 @@ class Fn:
                 return [e.id]
         raise Unsupported("class expression")
 
-    def bind_args(self, pyfunc, args, kws):
+    def bind_args(self, pyfunc, args, kws, skip_self=False):
         """positional + keyword arguments of a call of a selected function -> list of PyVal terms (defaults filled in)"""
         sig = inspect.signature(pyfunc)
         names = list(sig.parameters)
+        if skip_self:
+            names = names[1:]
         out = {}
         if len(args) > len(names):
             raise Unsupported("too many arguments")
@@ -1007,6 +1194,7 @@ class Fn:
 
 
 _CMP = {ast.Lt: "lt", ast.LtE: "le", ast.Gt: "gt", ast.GtE: "ge"}
+_MISSING = object()
 
 
 def _dotted(a):
@@ -1028,6 +1216,16 @@ def _is_fresh_list(v):
     if isinstance(v, ast.BinOp) and isinstance(v.op, (ast.Add, ast.Mult)) and (_is_fresh_list(v.left) or _is_fresh_list(v.right)):
         return True
     return False
+
+
+def _falls_through(stmts):
+    """can control reach the end of this statement list?  (conservative: True when in doubt)"""
+    for st in stmts:
+        if isinstance(st, (ast.Return, ast.Raise)):
+            return False
+        if isinstance(st, ast.If) and st.orelse and not _falls_through(st.body) and not _falls_through(st.orelse):
+            return False
+    return True
 
 
 def _targets_of(n):
@@ -1068,10 +1266,22 @@ def _walk_scope(stmts, into_exprs=False):
 
 # ---------------------------------------------------------------------------------------------- whole file
 class Ctx:
-    def __init__(self, selected):
+    def __init__(self, selected, tracked=None):
         self.selected = selected
         self.objs = {}        # id(function object) -> lean name
-        self.funcs = []       # (lean name, function object or None, error)
+        self.funcs = []       # (lean name, function object or None, error); grows while dependencies are discovered
+        self.deps = {}
+        self.current = None
+        self.dispatchers = {}      # name -> Lean definition text
+        self.dispatcher_deps = {}
+        self.tracked = []
+        for mod, name in (TRACKED if tracked is None else tracked):
+            try:
+                c = getattr(importlib.import_module(mod), name)
+                if inspect.isclass(c):
+                    self.tracked.append(c)
+            except Exception:
+                pass
         for lean_name, mod, path in selected:
             try:
                 m = importlib.import_module(mod)
@@ -1088,13 +1298,67 @@ class Ctx:
                 self.funcs.append((lean_name, obj, None))
             except Exception as ex:   # the function is gone or renamed
                 self.funcs.append((lean_name, None, f"{type(ex).__name__}: {ex}"))
-        self.deps = {}
 
+    # -- classes
+    def is_tracked(self, c):
+        return any(c is t for t in self.tracked)
+
+    def subclasses(self, c):
+        """tracked proper subclasses of c"""
+        return [d for d in self.tracked if d is not c and c in d.__mro__]
+
+    def lookup(self, c, attr):
+        try:
+            return inspect.getattr_static(c, attr)
+        except AttributeError:
+            return _MISSING
+
+    def defined_by_tracked(self, attr):
+        return any(attr in k.__dict__ for c in self.tracked for k in c.__mro__ if k is not object)
+
+    def field_class(self, c, attr):
+        """class of instance attribute `attr` of a c: from `self.attr = K(...)` in `__init__` (K tracked)"""
+        init = self.lookup(c, "__init__")
+        if not inspect.isfunction(init):
+            return None
+        try:
+            tree = ast.parse(textwrap.dedent(inspect.getsource(init)))
+        except (OSError, SyntaxError):
+            return None
+        fn = tree.body[0]
+        selfname = fn.args.args[0].arg
+        found = set()
+        for n in ast.walk(fn):
+            if isinstance(n, ast.Assign) and len(n.targets) == 1:
+                t = n.targets[0]
+                if isinstance(t, ast.Attribute) and isinstance(t.value, ast.Name) and t.value.id == selfname and t.attr == attr:
+                    v = n.value
+                    if isinstance(v, ast.Call) and isinstance(v.func, ast.Name):
+                        k = init.__globals__.get(v.func.id)
+                        found.add(k if inspect.isclass(k) and self.is_tracked(k) else None)
+                    else:
+                        found.add(None)
+        if len(found) == 1:
+            return found.pop()
+        return None
+
+    # -- functions
     def lean_name_of(self, f):
         return self.objs.get(id(f))
 
     def need(self, f):
         self.deps.setdefault(self.current, set()).add(self.objs[id(f)])
+
+    def require(self, f):
+        """the Lean name of function f, adding it to the functions to translate if it is not selected yet"""
+        if id(f) not in self.objs:
+            if not (f.__module__ or "").startswith("packaging"):
+                raise Unsupported(f"call of {f.__module__}.{f.__qualname__}")
+            name = f.__qualname__
+            self.objs[id(f)] = name
+            self.funcs.append((name, f, None))
+        self.need(f)
+        return self.objs[id(f)]
 
 
 def _arity(pyfunc):
@@ -1106,7 +1370,10 @@ def generate(selected=None):
     defs = {}
     info = {}
     arities = {}
-    for lean_name, obj, err in ctx.funcs:
+    i = 0
+    while i < len(ctx.funcs):              # the list grows while dependencies are discovered
+        lean_name, obj, err = ctx.funcs[i]
+        i += 1
         ctx.current = lean_name
         text = None
         if obj is not None:
@@ -1138,7 +1405,7 @@ def generate(selected=None):
         if state.get(n) == 1:
             raise Unsupported("recursion between selected functions: " + " -> ".join(stack + (n,)))
         state[n] = 1
-        for d in sorted(ctx.deps.get(n, ())):
+        for d in sorted(ctx.dispatcher_deps[n] if n in ctx.dispatchers else ctx.deps.get(n, ())):
             visit(d, stack + (n,))
         state[n] = 2
         order.append(n)
@@ -1150,10 +1417,16 @@ def generate(selected=None):
            "set_option linter.unusedVariables false",
            "namespace Gen.PySrc", "open PyRt", ""]
     for n in order:
+        if n in ctx.dispatchers:
+            out.append("/-- dynamic dispatch on the run-time class (a tracked subclass overrides the attribute) -/")
+            out.append(ctx.dispatchers[n])
+            out.append("")
+            continue
         sup = info[n]["supported"]
         out.append(f"def {n}_supported : Bool := {'true' if sup else 'false'}")
         out.append(defs[n])
         out.append("")
+    order = [n for n in order if n not in ctx.dispatchers]
     out.append("/-- every translated function by name, for the `src.call` driver operation -/")
     out.append("def table : List (String × Nat × (List PyVal → M PyVal)) :=")
     rows = []
